@@ -21,7 +21,7 @@ func genStorage(sb *strings.Builder) error {
 	if err != nil {
 		return err
 	}
-	var stopUsesAtomic, stopWritesDirect, trunc, create, openTmp, renameOK bool
+	var stopUsesAtomic, stopWritesDirect, trunc, create, openTmp, renameOK, directWrite bool
 	syncPos, renamePos := token.NoPos, token.NoPos
 	for _, d := range f.Decls {
 		fd, ok := d.(*ast.FuncDecl)
@@ -39,7 +39,12 @@ func genStorage(sb *strings.Builder) error {
 				stopUsesAtomic = true
 			case fd.Name.Name == "Stop" && (txt == "os.WriteFile" || txt == "os.Create" || txt == "os.OpenFile"):
 				stopWritesDirect = true
+			case fd.Name.Name == "writeFileAtomic" && (txt == "os.WriteFile" || txt == "os.Create"):
+				directWrite = true // the final name must only ever be produced by the rename
 			case fd.Name.Name == "writeFileAtomic" && txt == "os.OpenFile" && len(call.Args) >= 2:
+				if nodeText(fset, call.Args[0]) != "tmpName" {
+					directWrite = true
+				}
 				openTmp = nodeText(fset, call.Args[0]) == "tmpName"
 				flags := nodeText(fset, call.Args[1])
 				trunc = strings.Contains(flags, "os.O_TRUNC")
@@ -55,7 +60,7 @@ func genStorage(sb *strings.Builder) error {
 	}
 	sb.WriteString("(* shape of the state-file save, checked on the source with go/ast *)\n")
 	fmt.Fprintf(sb, "Definition storage_stop_uses_atomic : bool := %v.\n", stopUsesAtomic && !stopWritesDirect)
-	fmt.Fprintf(sb, "Definition storage_tmp_trunc : bool := %v.\n", openTmp && trunc && create)
+	fmt.Fprintf(sb, "Definition storage_tmp_trunc : bool := %v.\n", openTmp && trunc && create && !directWrite)
 	fmt.Fprintf(sb, "Definition storage_sync_then_rename : bool := %v.\n\n", renameOK && syncPos != token.NoPos && syncPos < renamePos)
 	return nil
 }
